@@ -59,8 +59,11 @@ BQT == 96      \* `
 Alphabet == {39, 34, 92, 10, 9, 37, 123, 125, 36, 35, 45, 47, 42, 59, 96,
              40, 41, 233, 1044, 119070, 97, 32}
 (* Characters that only occur in hand-picked idioms (%s %d {0} {1} ...),   *)
-(* not in the exhaustive enumeration:  s d 0 1 U+2192                      *)
-ExtraChars == {115, 100, 48, 49, 8594}
+(* number-looking and keyword-looking flag values 02139 1.50 -0 +1 1e3     *)
+(* 0x10 true null NULL), not in the exhaustive enumeration:                *)
+(* digits . + s d e x t r u l n N U L U+2192                               *)
+ExtraChars == (48..57) \cup {46, 43, 115, 100, 101, 120, 116, 114, 117, 108,
+                             110, 78, 85, 76, 8594}
 
 -----------------------------------------------------------------------------
 (* Lexical profiles.  A profile says which quote closes the literal,       *)
